@@ -77,3 +77,77 @@ def forall(fn, lo, hi, name="q"):
     i = core.CUR.fresh_int(name)
     body = fn(SymInt(i))
     return core.mk_bool(z3.ForAll([i], z3.Implies(z3.And(i >= T(lo), i < T(hi)), core.TB(body))))
+
+
+class SymMap:
+    """an arbitrary finite map int -> int (e.g. any port map): membership and value are uninterpreted
+    functions; every query is declared so that a counter-model can be turned back into a dict"""
+
+    def __init__(self, name):
+        z3 = core.z3
+        self.name = name
+        self.has = z3.Function(name + ".has", z3.IntSort(), z3.BoolSort())
+        self.val = z3.Function(name + ".val", z3.IntSort(), z3.IntSort())
+        self.nq = 0
+        self.nonempty = core.sym_bool(name + ".nonempty")
+
+    def pyvc_truth(self, I):
+        return self.nonempty
+
+    def pyvc_len(self, I):
+        raise Unsupported("len() of an arbitrary map")
+
+    def _declare(self, k):
+        E = core.CUR
+        i = self.nq
+        self.nq += 1
+        kk = core.sym_int("%s.q%d.key" % (self.name, i))
+        hh = core.sym_bool("%s.q%d.in" % (self.name, i))
+        vv = core.sym_int("%s.q%d.val" % (self.name, i))
+        E.add(kk.t == T(k))
+        E.add(hh.t == self.has(T(k)))
+        E.add(vv.t == self.val(T(k)))
+        E.add(core.z3.Implies(hh.t, self.nonempty.t))
+        return hh, vv
+
+    def pyvc_contains(self, I, k):
+        hh, vv = self._declare(k)
+        return hh
+
+    def pyvc_getitem(self, I, k):
+        hh, vv = self._declare(k)
+        if not core.CUR.fork(hh.t):
+            raise PyExc("KeyError", "key not in map")
+        return vv
+
+    def pyvc_getattr(self, I, name):
+        from .interp import Builtin
+        if name == "keys":
+            return Builtin("dict.keys", lambda I: self)
+        if name == "get":
+            def get(I, k, d=None):
+                hh, vv = self._declare(k)
+                return vv if core.CUR.fork(hh.t) else d
+            return Builtin("dict.get", get)
+        if name in ("pop", "setdefault"):
+            def mut(I, k, d=None):
+                self.mutated = True       # frame violation, reported by the contract (map_unmodified)
+                hh, vv = self._declare(k)
+                return vv if core.CUR.fork(hh.t) else d
+            return Builtin("dict." + name, mut)
+        if name in ("update", "clear", "popitem"):
+            def mut2(I, *a, **k):
+                self.mutated = True
+            return Builtin("dict." + name, mut2)
+        raise Unsupported("method %s on a symbolic map" % name)
+
+    mutated = False
+
+    def pyvc_setitem(self, I, k, v):
+        self.mutated = True
+
+    def contains(self, k):
+        return core.mk_bool(self.has(T(k)))
+
+    def value(self, k):
+        return SymInt(self.val(T(k)))
